@@ -1937,9 +1937,12 @@ public:
     if (vecElementL.size() == 1) return vecElementL[0];
     std::vector<T> v;
     if (vecElementL.size() == 0) return v;
-    for (auto it : vecElementL[0])
+    for (const auto& vec : vecElementL)
     {
-      v.push_back(it);
+      for (auto it : vec)
+      {
+        v.push_back(it);
+      }
     }
     return v;
   }
